@@ -237,6 +237,15 @@ def check(repo: Repo, R) -> None:
             pn, sg = [ast.unparse(x) for x in inner[0].target.elts]
             ok = bool(shared.calls_matching(ff.node, f"new_module.add({lv}.inst.of(), name={lv}.make_name()).connect({pn}, _find_signal_or_port(new_module, {sg}.name))")) or (
                 bool(pat.find(f"$NI = new_module.add({lv}.inst.of(), name={lv}.make_name())", rec[1])) and any(ast.unparse(b["NI"]) == ast.unparse(pat.find(f"$NI = new_module.add({lv}.inst.of(), name={lv}.make_name())", rec[1])[0][1]["NI"]) for c, b in pat.find(f"$NI.connect({pn}, _find_signal_or_port(new_module, {sg}.name))", inner[0])))
+    if len(rec) == 2:
+        adds = [c for c in au.calls_in(rec[1]) if ast.unparse(c.func) == "new_module.add" and c.args and ast.unparse(c.args[0]) == f"{lv}.inst.of()"]
+        outer = len(path_conditions(ff.node, rec[1]))
+        skips = [x for x in ast.walk(rec[1]) if isinstance(x, (ast.Break, ast.Continue, ast.Return)) and enclosing(ff.node, x, (ast.For,)) is rec[1]]
+        conds_ = [ast.unparse(t)[:50] for c in adds for t, _p in path_conditions(ff.node, c)[outer:]]
+        every = len(adds) == 1 and not skips and not conds_
+        R.check(every, rule, key_of(ff, "every-leaf-added"), ff.at(adds[0]) if adds else ff.site,
+                f"every recorded leaf becomes an instance of the flat module, whatever its connections: {every}" + (f" (decided by {conds_ or 'an early exit of the loop'})" if not every else ""),
+                why="a leaf without ports (a fill / tap / marker cell) silently vanishes from the flat module and its netlist")
     R.check(ok, rule, key_of(ff, "reconnect"), ff.site, f"one new instance per leaf, each of its ports connected to the flat module's signal of the mapped net's name: {ok}", why="leaf terminals are connected to other nets than in the hierarchy")
     fs = repo.func(F_FLATTEN, "_find_signal_or_port")
     frets = shared.returns_of(fs.node)
